@@ -329,6 +329,6 @@ PROP = Prop(
                  'general trilinear hexahedra with non-planar faces are excluded (the tetrahedral split of the finder does not tile them)',
                  'ElementComposite raises NotImplementedError in probes by design; ElementGlobal/skeleton elements excluded',
                  'any exception type counts as "raises" for outside points'],
-    subs=[Sub('locate', body_locate, strategy=case_locate, quick=4000, thorough=60000),
-          Sub('evaluate', body_eval, strategy=case_eval, quick=2000, thorough=30000)],
+    subs=[Sub('locate', body_locate, strategy=case_locate, quick=3000, thorough=60000),
+          Sub('evaluate', body_eval, strategy=case_eval, quick=1200, thorough=30000)],
     design_ref='DESIGN.md section 6, C14')
